@@ -52,14 +52,14 @@ func (g *cfGen) stmts(sc cfScope, depth int, callable []string) []*cfNode {
 		g.budget--
 		k := g.r.Intn(100)
 		switch {
-		case k < 30 || depth <= 0:
+		case k < 18 || depth <= 0:
 			out = append(out, &cfNode{Kind: "out", Tag: g.tag()})
-		case k < 45:
+		case k < 43:
 			g.nvar++
 			v := fmt.Sprintf("v%d", g.nvar)
 			s2 := cfScope{blocks: append(append([]string{}, sc.blocks...), "foreach"), loopVars: append(append([]string{}, sc.loopVars...), v), fn: sc.fn}
 			out = append(out, &cfNode{Kind: "foreach", Var: v, N: 1 + g.r.Intn(3), Body: g.stmts(s2, depth-1, callable)})
-		case k < 55:
+		case k < 56:
 			g.nvar++
 			v := fmt.Sprintf("w%d", g.nvar)
 			s2 := cfScope{blocks: append(append([]string{}, sc.blocks...), "while"), loopVars: append(append([]string{}, sc.loopVars...), v), fn: sc.fn}
@@ -187,6 +187,7 @@ type cfInterp struct {
 	funcs     map[string]*cfFunc
 	out       strings.Builder
 	steps     int
+	extraSteps int // the deviation run may take longer than the reference run
 	ctlRun    int
 	ifTaken   int
 	ifSkipped int
@@ -199,7 +200,7 @@ type cfInterp struct {
 func (in *cfInterp) block(nodes []*cfNode, vars map[string]int) cfSignal {
 	for _, n := range nodes {
 		in.steps++
-		if in.steps > 400 {
+		if in.steps > 400+in.extraSteps {
 			return cfSignal{kind: "overflow"}
 		}
 		switch n.Kind {
@@ -284,6 +285,8 @@ type c39Expect struct {
 	// DevStdout: output if a continue placed directly in its loop's body did nothing (known deviation)
 	DevStdout string `json:"dev_stdout,omitempty"`
 	HasDev    bool   `json:"has_dev,omitempty"`
+	DevExit   int    `json:"dev_exit,omitempty"`
+	DevExitOK bool   `json:"dev_exit_ok,omitempty"`
 }
 
 func init() {
@@ -295,7 +298,7 @@ func init() {
 		Assumptions: []string{"break/continue only name blocks that enclose them inside the same function", "the exit number after `break <function>` is not asserted", "leaf commands out, a [1..n], expression assignment and `if {$v == k}` are the observation channel"},
 		Run: func(x *Ctx) {
 			pool := x.NewPool(false)
-			n := x.Pick(1500, 50000)
+			n := x.Pick(4000, 200000)
 			var cases []*proto.Case
 			for i := 0; i < n; i++ {
 				r := x.Rng("cf", i)
@@ -324,9 +327,21 @@ func init() {
 					e.Exit, e.ExitKnown = 0, true
 				}
 				if in.directRun > 0 {
-					dv := &cfInterp{funcs: in.funcs, kinds: map[string]int{}, directNoop: true}
-					if sg := dv.call(main.Name); sg.kind != "overflow" {
+					dv := &cfInterp{funcs: in.funcs, kinds: map[string]int{}, directNoop: true, extraSteps: 6000}
+					sg := dv.call(main.Name)
+					if sg.kind == "overflow" {
+						// the program runs a `continue` that murex ignores (listed finding) and what it does
+						// then is too long to model: not a usable case
+						continue
+					}
+					if sg.kind != "overflow" {
 						e.DevStdout, e.HasDev = dv.out.String(), true
+						switch sg.kind {
+						case "done:return":
+							e.DevExit, e.DevExitOK = sg.n, true
+						case "done:":
+							e.DevExit, e.DevExitOK = 0, true
+						}
 					}
 				}
 				e.NT = in.ctlRun > 0 && in.ifTaken > 0 && in.ifSkipped > 0
@@ -364,7 +379,9 @@ func init() {
 					}
 				}
 				sig := kind + ":" + strings.Join(which, "+")
-				if e.HasDev && got == e.DevStdout && got != e.Stdout {
+				if e.HasDev && got == e.DevStdout && (!e.DevExitOK || run.Exit == e.DevExit) {
+					// the whole observable outcome (stdout and, where the model knows it, the exit number)
+					// is the one a no-op `continue` gives
 					sig = "continue:direct-child-noop"
 				}
 				x.Viol(sig, fmt.Sprintf("program\n%s\ngave stdout=%q exit=%d stderr=%q; reference interpreter says stdout=%q exit=%d (asserted=%v)", e.Src, got, run.Exit, trunc(string(run.Stderr), 300), e.Stdout, e.Exit, e.ExitKnown), c, map[string]any{"stdout": got, "exit": run.Exit}, map[string]any{"stdout": e.Stdout, "exit": e.Exit})
